@@ -40,7 +40,13 @@ def apply_mutant(m, tmp):
         ap = subprocess.run(['git', 'apply', '-R', '-'], input=diff,
                             cwd=tmp, capture_output=True, text=True)
         if ap.returncode:
-            return 'revert does not apply: ' + ap.stderr[:200]
+            # later repairs touched neighbouring lines: let patch(1) find
+            # the hunks with some fuzz
+            ap2 = subprocess.run(['patch', '-R', '-p1', '-F3', '-s',
+                                  '--no-backup-if-mismatch'], input=diff,
+                                 cwd=tmp, capture_output=True, text=True)
+            if ap2.returncode:
+                return 'revert does not apply: ' + ap.stderr[:200]
 
     for e in m.get('edits') or ([m] if 'file' in m else []):
         path = os.path.join(tmp, e['file'])
